@@ -498,3 +498,24 @@ def check(P: Project, R: Report) -> None:
     R.ob("R13", "the fallback resolves annotations when it validates an object", bool(resolvers) or not fwd, f"{base_rel}:{init_.lineno}",
          f"no get_type_hints call is reached from the fallback constructor (methods read: {sorted(reach)}); {len(fwd)} protocol model member(s) are annotated with a forward reference ({', '.join(fwd[:4])}) and can only be resolved after their module has been imported",
          sample=f"R13 get_type_hints reached from the constructor via {sorted({nm for nm, _c in resolvers})}; forward-referenced members: {fwd[:3]}")
+
+    # ------------------------------------------------------------------ R14: a class named in an annotation means that class
+    R.rule("R14", "a member typed by a model class is built as that class under the fallback too: the fallback looks a class-typed annotation up by its bare name in every loaded module and takes a generic alias of that name if it finds one, so no module of the package binds a subscripted typing alias (`Name = Callable[...]`, `List[...]`, `Union[...]` …) at module level under the name of a class the models use")
+    resolver = next((n for n in ast.walk(ast.Module(body=split.orelse, type_ignores=[])) if isinstance(n, ast.FunctionDef) and any(isinstance(x, ast.Attribute) and x.attr == "modules" and ast.unparse(x.value) == "sys" for x in ast.walk(n)) and any(isinstance(x, ast.Attribute) and x.attr == "__name__" for x in ast.walk(n))), None)
+    class_names = {}
+    for ci_ in P.classes.values():
+        class_names.setdefault(ci_.name, ci_)
+    clashes = []
+    for m_ in P.modules.values():
+        for st_ in m_.tree.body:
+            tg_ = st_.targets[0] if isinstance(st_, ast.Assign) and len(st_.targets) == 1 else (st_.target if isinstance(st_, ast.AnnAssign) else None)
+            v_ = getattr(st_, "value", None)
+            if isinstance(tg_, ast.Name) and isinstance(v_, ast.Subscript) and tg_.id in class_names and class_names[tg_.id].module is not m_:
+                used = [q for q, mi in T.models.items() if any(tg_.id in re.findall(r"[A-Za-z_]\w*", f_.ann_text) for f_ in mi.fields.values())]
+                if used:
+                    clashes.append((m_, st_, tg_.id, used))
+    for m_, st_, nm_, used in clashes:
+        R.ob("R14", f"`{nm_}` names the model class wherever the fallback looks it up", resolver is None, f"{m_.rel}:{st_.lineno}",
+             f"`{ast.unparse(st_)[:70]}` binds a generic alias under the name of the class {class_names[nm_].module.name}.{nm_}, which {', '.join(q.split(':')[1] for q in used[:3])} use as a member type: once this module is imported the fallback's by-name lookup ({resolver.name if resolver else '?'}, scanning sys.modules) returns the alias, the member is passed through unvalidated as a plain dict, and the two backends type the same wire object differently")
+    R.ob("R14", "no module-level generic alias shares its name with a class the models are typed by", not clashes or resolver is None, base_rel, f"{len(clashes)} clash(es); by-name lookup over all modules present: {resolver is not None}",
+         sample=f"R14 by-name resolver: {resolver.name if resolver else 'none'}; clashes: {len(clashes)}")
